@@ -473,6 +473,16 @@ def evaluate_case(b, case):
         import traceback
         b.fail(case, 'HARNESS_RAISED', {'error': repr(e), 'tb': traceback.format_exc(limit=8)}, dedup=type(e).__name__)
         return
+    except BaseException as e:
+        if type(e).__name__ != 'BoomBase':
+            raise
+        # an application exception (one that does not derive from Exception) raised by a handler of the program came out of tick() /
+        # flush(): the rest of the closure is abandoned with it
+        import traceback
+        b.case(case, nontrivial=True)
+        b.fail(case, 'LOOP_RAISED', {'error': repr(e), 'tb': traceback.format_exc(limit=6),
+                                     'note': 'an exception raised by a handler escaped from the dispatcher into the caller of tick()/flush()'}, dedup='')
+        return
     if problems is None:
         b.inconclusive_because(info['inconclusive'])
         return
